@@ -119,6 +119,33 @@ def main(tier, replay=None):
             else:
                 st["rerun_identical"] += 1
             C.drop()
+        # the same with -debugdir: a killed build must not leave a debug directory that the re-run refuses or leaves incomplete
+        dd = os.path.join(E.scratch, "kill_debugdir")
+        for t in ([4.0] if tier == "quick" else [1.0, 4.0, 12.0, 30.0]):
+            C = c06.CacheSet(E, "killdd", base)
+            shutil.rmtree(root, ignore_errors=True); c06.write_prog(root, files)
+            shutil.rmtree(dd, ignore_errors=True)
+            cmdline = [E.garble, "-debugdir=" + dd, "build", "-o", "out", "."]
+            p = subprocess.Popen(cmdline, cwd=root, env=E.env(C.env()), stdout=subprocess.DEVNULL, stderr=subprocess.DEVNULL, start_new_session=True)
+            time.sleep(t)
+            alive = p.poll() is None
+            try:
+                os.killpg(p.pid, signal.SIGKILL)
+            except ProcessLookupError:
+                pass
+            p.wait()
+            left = sorted(os.listdir(dd)) if os.path.isdir(dd) else None
+            st["kill_instants"] += 1
+            st["killed_while_running"] += 1 if alive else 0
+            r = E.run_garble(["-debugdir=" + dd], ["build", "-o", "out", "."], root, C.env())
+            chk.count_cases(["kill-debugdir|%.2f" % t])
+            if r.returncode != 0:
+                fails.append({"why": "the -debugdir build after an interrupted -debugdir build fails", "detail": {"killed_after_s": t, "debugdir_left_with": left, "stderr": r.stderr[-600:]}, "key": "rerun-fails:debugdir"})
+            elif not os.path.exists(os.path.join(dd, "garbled", prog.mod)) or not os.path.exists(os.path.join(dd, "source", prog.mod)):
+                fails.append({"why": "after the re-run the debug directory is incomplete", "detail": {"killed_after_s": t, "entries": sorted(os.listdir(dd))}, "key": "rerun-debugdir-incomplete"})
+            else:
+                st["rerun_identical"] += 1
+            C.drop()
         chk.add_sample({"uninterrupted_build_s": round(full, 1), "kill_instants_s": instants[:8]})
         base.drop()
     finally:
